@@ -12,11 +12,17 @@ Proof part (coq/C07):
       given that every mutator changes num_gates or clears the storage - the
       mutator inventory is REGENERATED from source (harness/c07_inventory.py ->
       coq/C07/Mutators.v).
+  (3c) caches keyed by the identity of an object (id(G) -> converted gate array, one dict shared by a circuit and all
+      its copies): with entries that store the original array, every history of allocations / frees / copies / dropped
+      simulators / accepted and rejected gates under ANY allocator returns the conversion of the array handed in;
+      without it a dropped copy or a rejected gate gives a stale hit (coq/C07/IdCacheModel.v, IdCache.v); the inventory
+      of id() uses is REGENERATED from source (harness/c07_idcache.py -> coq/C07/IdCacheSites.v).
 Tie: (1) the same expression trees evaluated with math.cos/sin vs the
   implementation's float matrices at rational parameters (1e-12); (2) exact:
   circ.qubits after every gate of random programs and the sites handed to
   gate_with_auto_swap, evaluated in Coq; (3) exact: storage keys, hit/miss
-  sequence and _sample_n_gates after every operation of random programs.
+  sequence and _sample_n_gates after every operation of random programs; (3c) exact: hit/miss and returned conversion
+  of every _maybe_convert_gate_array call, dict listing with pin flags, live arrays (weak references).
 Oracle (test stream, tolerance 1e-9): random programs over the whole registered
   vocabulary + raw + (multi-)controlled gates on every simulator class x gate
   application option, interleaving gates / parameter updates / queries; every
@@ -48,10 +54,17 @@ RULE = (
     "programs of gates / set_params / update_params_from / clear / copy / queries / sampler passes on Circuit with logging "
     "dicts, exact comparison of key lists, hit/miss events and _sample_n_gates after every operation (non-trivial: a query "
     "repeated across a mutation); light cone: 90 / 4500 (program, where) pairs, exact comparison of the selected gate numbers "
-    "(non-trivial: a SWAP in the program and a proper non-empty cone); oracle: 5 / 100 random programs on each of 19 "
+    "(non-trivial: a SWAP in the program and a proper non-empty cone); oracle: 5 / 100 random programs on each of 21 "
     "class x option configurations (+ ~120 targeted programs), every query answer vs a dense numpy reference (exact "
     "simulators and MPS with cutoff=0 1e-9, MPS with the default cutoff 2e-5, default complex64 marginals 1e-4), rejected gates "
-    "must leave the simulator unchanged. distinct = distinct (stream, configuration, program) descriptions."
+    "must leave the simulator unchanged; identity-keyed cache: 35 / 350 event programs (5 eagerly converting simulator classes x 7 "
+    "conversion options: dtype / to_backend producing a new array, a view, or the same object) of freshly allocated raw / "
+    "parametrised / constant gate arrays, short-lived copies, gates rejected after the conversion, dropped references and "
+    "simulators, with an adversarial allocation strategy that reuses the address of a dead array - exact comparison in Coq of "
+    "hit/miss, which array's conversion came back, the dict's (key, pins-its-key-object) listing and the live arrays after every "
+    "operation; call-site oracle (exact) and dense-state oracle (1e-9, 2e-4 for complex64) on the same programs (non-trivial: a "
+    "dropped copy and a rejected gate on a simulator whose conversion allocates). distinct = distinct (stream, configuration, "
+    "program) descriptions."
 )
 
 
@@ -469,6 +482,12 @@ class Ref:
 ACCEPT_ALL = {"1q", "1qp", "2q", "2qp", "IDEN", "raw1", "raw2"}
 
 
+def to_backend_copy(x):
+    """a `to_backend` that hands back a NEW array for every numpy array (stands for a device transfer); anything else
+    (parametrised PArray) is passed through"""
+    return np.array(x) if isinstance(x, np.ndarray) else x
+
+
 def configs():
     import quimb.tensor as qtn
 
@@ -507,6 +526,12 @@ def configs():
         {"3q", "raw3", "SWAP", "ctrl", "ctrl2"}, mps=True, lazy=True)
     add("CircuitMPSLazy[every=4,cutoff=0]", "CircuitMPSLazy", lambda N: qtn.CircuitMPSLazy(N, compress_every=4, cutoff=0.0),
         {"3q", "raw3", "SWAP", "ctrl", "ctrl2"}, mps=True, lazy=True, tol=TOL)
+    # simulators whose eager conversion produces NEW arrays (to_backend stands for a device transfer): every gate array goes
+    # through the id()-keyed cache of converted arrays, every state tensor through to_backend
+    add("CircuitMPS[to_backend=copy,cutoff=0]", "CircuitMPS", lambda N: qtn.CircuitMPS(N, cutoff=0.0, to_backend=to_backend_copy),
+        {"3q", "raw3", "SWAP", "ctrl", "ctrl2"}, mps=True, tol=TOL)
+    add("CircuitPermMPS[dtype=complex128,to_backend=copy,cutoff=0]", "CircuitPermMPS",
+        lambda N: qtn.CircuitPermMPS(N, cutoff=0.0, dtype="complex128", to_backend=to_backend_copy), {"SWAP"}, mps=True, perm=True, tol=TOL)
     return C
 
 
@@ -2057,13 +2082,110 @@ def _cache_searcher(ctx, failed, info):
 
 
 # =============================================================================
+# (3c) caches keyed by the identity of an object: key / liveness discipline
+# =============================================================================
+
+
+def idcache_scan_stage(ctx):
+    """static inventory of every id() use in the circuit modules -> coq/C07/IdCacheSites.v (Props.v states that every
+    site stores the object next to its id)"""
+    from harness import c07_idcache as ic
+
+    try:
+        sites, extra = ic.scan(REPO)
+    except Exception as e:
+        ctx.broken_obligation("idcache:scan_failed", repr(e))
+        return
+    ctx.regen("C07/IdCacheSites.v", ic.emit_coq(sites))
+    ctx.extra["id_keyed_sites"] = [{k: s[k] for k in ("site", "kind", "object", "pins", "value")} for s in sites]
+    ctx.extra["identity_caches_other"] = extra
+    if not any(s["kind"] == "dict_key" and "_maybe_convert_gate_array" in s["site"] for s in sites):
+        ctx.broken_obligation("idcache:scan:known_site_not_found",
+                              "the id()-keyed dict of CircuitBase._maybe_convert_gate_array was not found - the scan (or the model "
+                              "coq/C07/IdCacheModel.v) no longer matches the source")
+    for s in sites:
+        if not s["pins"]:
+            ctx.broken_obligation(f"idcache:site_does_not_store_its_key_object:{s['site']}",
+                                  f"line {s['line']}: {s['kind']} derived from id({s['object']}) but the stored value `{s['value']}` does not "
+                                  f"contain {s['object']} itself: the id can outlive the object it names")
+
+
+def idcache_stage(ctx):
+    """event programs (fresh gate arrays, short-lived copies, rejected gates, dropped references, adversarial address
+    reuse) on every eagerly converting simulator class x conversion option: exact correspondence with the Coq model
+    + call-site oracle (exact) + dense-state oracle (a test, not a theorem: 1e-9, 2e-4 for complex64 simulators)"""
+    from harness import c07_idcache as ic
+
+    rng = ctx.rng
+    combos = [(cls, conv) for cls in ic.CLASSES for conv in ic.CONVS]
+    n = ctx.n(len(combos), 10 * len(combos))
+    cases, info, unexplained = [], {}, {}
+    real = ic.install_spy()
+    try:
+        for cid in range(1, n + 1):
+            cls, conv = combos[(cid - 1) % len(combos)]
+            N = rng.choice([3, 4])
+            prog = ic.gen_program(rng, cls, N, rng.randint(5, 9))
+            kinds = [o["op"] for o in prog]
+            nontriv = "drop" in kinds and any(o.get("reject") for o in prog) and ic.CONVS[conv]["new"]
+            ctx.count(("idcache", cls, conv, N, json.dumps(prog)), nontriv)
+            ctx.bump(f"idcache:{cls}")
+            ctx.bump(f"idcache:conv:{conv}")
+            try:
+                r = ic.run_program(ctx, cls, conv, N, prog)
+            except Exception as e:
+                ctx.violation(f"{cls}:idcache_program:harness_raised", f"{type(e).__name__}: {e}",
+                              {"stream": "idcache", "class": cls, "conv": conv, "N": N, "program": prog})
+                continue
+            if r is None:
+                continue
+            trace, inf, st = r
+            ctx.bump("idcache:address_recycled", st["recycled"])
+            info[cid] = inf
+            if not st["violated"]:
+                unexplained[cid] = (cls, conv, N, prog)
+            cases.append((cid, ic.case_expr(trace)))
+            if cid == 2:
+                ctx.sample({"stream": "idcache", "class": cls, "conv": conv, "N": N, "ops_head": inf["ops"][:3]})
+    finally:
+        ic.remove_spy(real)
+    IDCACHE_UNEXPLAINED.clear()
+    IDCACHE_UNEXPLAINED.update(unexplained)
+    PENDING.append(("idcache", cases, info, _idcache_searcher))
+
+
+IDCACHE_UNEXPLAINED = {}
+
+
+def _idcache_searcher(ctx, failed, info):
+    from harness import c07_idcache as ic
+
+    for c in failed[:5]:
+        ctx.broken_obligation("correspondence:idcache_model_vs_impl", {k: v for k, v in info[c].items() if k != "program"})
+    # searcher: the same programs again with a much more persistent adversarial allocator
+    real = ic.install_spy()
+    try:
+        for c in [c for c in failed if c in IDCACHE_UNEXPLAINED][:6]:
+            cls, conv, N, prog = IDCACHE_UNEXPLAINED[c]
+            try:
+                ic.run_program(ctx, cls, conv, N, prog, ncand=256)
+            except Exception:
+                pass
+    finally:
+        ic.remove_spy(real)
+
+
+# =============================================================================
 # all exact correspondences are evaluated by ONE batch of Coq files (shards run in parallel)
 # =============================================================================
 
 PENDING = []
 
+from harness.c07_idcache import COQ_HEADER as _IDCACHE_COQ_HEADER  # noqa: E402
+
 CORR_HEADER = (
-    "From Coq Require Import List Arith Bool ZArith.\nFrom QV Require Import C07.Model C07.LightconeModel C07.RecordModel.\nImport ListNotations.\n"
+    "From Coq Require Import List Arith Bool ZArith.\nFrom QV Require Import C07.Model C07.LightconeModel C07.RecordModel C07.IdCacheModel.\nImport ListNotations.\n"
+    + _IDCACHE_COQ_HEADER +
     # tracker
     "Fixpoint phys_trace (qs : list nat) (gates : list (list nat)) : list (list nat) :=\n"
     "  match gates with [] => [] | g :: r => match perm_step qs g with Some (qs', ph) => ph :: phys_trace qs' r | None => [] end end.\n"
@@ -2133,6 +2255,10 @@ def run(ctx):
         "(psi = self._psi) are not tracked",
         "hand models coq/C07/Model.v of CircuitPermMPS._apply_gate / gate_with_auto_swap / swap_site_to (index level) and of "
         "the storage protocol of exact.py; tie = exact correspondence evaluated in Coq on observed traces",
+        "harness/c07_idcache.py: syntactic scan of id() uses (dict entry `X[id(G)] = value`, attribute derived from id(U); anything "
+        "else is reported unrecognised); hand model coq/C07/IdCacheModel.v of _maybe_convert_gate_array / copy() / _gates over a heap "
+        "with an adversarial allocator, tied by exact correspondence (spy on the method, weak references for liveness, CPython "
+        "reference counting + gc.collect() after dropped simulators)",
         "numpy / cotengra / LAPACK and quimb's tensor-network layer are not modelled: all numeric claims (states, amplitudes, "
         "reduced density matrices, marginals, samples) are decided by the dense-reference oracle stream at 1e-9 (tests)",
     ]
@@ -2144,7 +2270,10 @@ def run(ctx):
         "matrices of the right shape, no truncation requested (default cutoff 1e-10); out-of-range qubits are accepted silently "
         "by Circuit / CircuitMPS (outside the domain, not reported)",
         "CircuitPEPSSimpleUpdate / CircuitPEPOSimpleUpdate (approximate simple-update simulators without cached queries) are "
-        "listed by the inventory scan but not exercised",
+        "listed by the inventory scan; only the identity-keyed gate cache of CircuitPEPSSimpleUpdate is exercised (no state oracle)",
+        "identity-keyed cache: gate arrays are not modified in place after they were handed to a simulator (quimb keeps "
+        "references, never copies); CircuitDense never converts eagerly (its convert_eager argument is stored in gate_opts, "
+        "circ.convert_eager stays False), so its id()-keyed dict stays empty and it is not part of that stream",
     ]
     import time
 
@@ -2161,12 +2290,14 @@ def run(ctx):
 
     timed(gates_stage)
     timed(inventory_stage)
+    timed(idcache_scan_stage)
     if only and "props" not in only:
         ctx.extra["partial_run"] = only
     else:
       ctx.check_props([
         "Base/Sums.vo", "C07/CMat.vo", "C07/GatesGen.vo", "C07/GateProofs.vo", "C07/Model.vo", "C07/Proofs.vo", "C07/TrackerG.vo",
-        "C07/Ctrl.vo", "C07/LightconeModel.vo", "C07/Lightcone.vo", "C07/RecordModel.vo", "C07/Record.vo", "C07/Mutators.vo", "C07/Inventory.vo", "C07/Props.v",
+        "C07/Ctrl.vo", "C07/LightconeModel.vo", "C07/Lightcone.vo", "C07/RecordModel.vo", "C07/Record.vo", "C07/Mutators.vo", "C07/Inventory.vo",
+        "C07/IdCacheModel.vo", "C07/IdCache.vo", "C07/IdCacheSites.vo", "C07/Props.v",
     ])
     PENDING.clear()
     NEED_SAMPLE_SEARCH["flag"] = False
@@ -2182,7 +2313,8 @@ def run(ctx):
     OWNERSHIP_SEEN.clear()
     timed(targeted_stage)
     timed(oracle_stage)
-    if not only or any(x in only for x in ("perm_stage", "cache_stage", "lightcone_stage", "correspondence_flush")):
+    timed(idcache_stage)
+    if not only or any(x in only for x in ("perm_stage", "cache_stage", "lightcone_stage", "idcache_stage", "correspondence_flush")):
         ownership_cases(ctx)
         timed(correspondence_flush)
 
@@ -2191,7 +2323,15 @@ def replay(ctx, path):
     with open(path) as f:
         d = json.load(f)
     r = d.get("replay", d)
-    if isinstance(r, dict) and "sample_calls" in r and "gates" in r:
+    if isinstance(r, dict) and r.get("stream") == "idcache":
+        from harness import c07_idcache as ic
+
+        real = ic.install_spy()
+        try:
+            ic.run_program(ctx, r["class"], r["conv"], r["N"], r["program"], ncand=256)
+        finally:
+            ic.remove_spy(real)
+    elif isinstance(r, dict) and "sample_calls" in r and "gates" in r:
         run_sample_history(ctx, r["config"], r["N"], r["gates"], r["sample_calls"])
     elif isinstance(r, dict) and "program" in r and "config" in r:
         cfg = configs()[r["config"]]
